@@ -165,9 +165,10 @@ def _server_run(wire, k, maxlen=None):
     sv.state_COMMAND = lambda line: cmds.append(t(line))
     if k > 0:
         sv.dataReceived(b(wire[:k]))
-    if k < len(wire):
+    if k < len(wire) and not tr.lost:
+        # (a transport that was told to close delivers nothing more)
         sv.dataReceived(b(wire[k:]))
-    return ev, cmds, sv.mode, "".join(tr.out), t(sv._buffer)
+    return ev, cmds, sv.mode, "".join(tr.out), ("closed" if tr.lost else t(sv._buffer))
 
 
 def _expected(lines):
@@ -202,18 +203,20 @@ def _transfer(lines, term, cs, split):
 
 def _outcome(lines, ev, cmds, mode, replies, rest, may_refuse):
     """transferred exactly - or, when allowed, refused cleanly: the message object is told the
-    transfer failed (no end of message), the client gets exactly one 5xx reply, the server is back in
-    command mode with nothing left over, and NOTHING of the body or the terminator was given to the
-    command interpreter"""
-    if cmds != [] or rest != "" or mode != COMMAND:
+    transfer failed (no end of message), the client gets exactly one 5xx reply, NOTHING of the body or
+    the terminator was given to the command interpreter, and the server either closed the connection
+    or is back in command mode with nothing left over"""
+    if cmds != []:
         return False
-    if ev == _expected(lines) and replies == "250 Delivery in progress\r\n":
-        return True
+    if ev == _expected(lines):
+        return rest == "" and mode == COMMAND and replies == "250 Delivery in progress\r\n"
     if not may_refuse:
         return False
     if len(ev) == 0 or ev[-1] != ("lost",) or ("eom",) in ev:
         return False
     if ev[:-1] != _expected(lines)[:len(ev) - 1]:
+        return False
+    if not (rest == "closed" or (rest == "" and mode == COMMAND)):
         return False
     return len(replies) >= 6 and replies[0] == "5" and replies.count("\r\n") == 1 and replies.endswith("\r\n")
 
@@ -251,7 +254,7 @@ _LONG = [997, 998, 999, 1000, 1001, 2000]
 def long_default(fill: str, lsel: int, split: int) -> bool:
     """
     pre: len(fill) == 1 and _ok(fill)
-    pre: 0 <= lsel < len(_LONG) and 0 <= split <= 4
+    pre: 0 <= lsel < len(_LONG) and 0 <= split <= 2
     post: _
     """
     # class-default MAX_LENGTH and CHUNK_SIZE: one line of L copies of a symbolic byte (L around the
@@ -265,7 +268,7 @@ def long_default(fill: str, lsel: int, split: int) -> bool:
         return False
     w = len(wire)
     api.obs((w, wire[:3], wire[-12:]))
-    k = [1, n + 1, n + 2, n + 4, w][_menu(0, 4, split)]
+    k = [n + 1, n + 2, w][_menu(0, 2, split)]
     ev, cmds, mode, replies, rest = _server_run(wire, k)
     api.obs(([(e[0], len(e[1]) if len(e) > 1 else 0) for e in ev], cmds, mode, replies, rest))
     cover()
@@ -323,31 +326,19 @@ def _shards3(tier):
             for a in range(ll + 1) for c in range(ll + 1) for e in range(ll + 1) for k in range(1, cs + 1)]
 
 
-# OPEN-finding hook: SMTP.lineLengthExceeded leaves DATA mode in the middle of a message, so the rest
-# of the body is executed as commands (real limit 16384: body b"a"*16385 + b"\nRSET\n")
-EXCLUDE = {"data-line-too-long": {"long_scaled": "len(l1) + (1 if l1[0] == '.' else 0) <= SCALED_MAX"}}
-
-
-def classify(harness_name, args):
-    if harness_name == "long_scaled":
-        l1 = args["l1"]
-        if len(l1) + (1 if l1[:1] == "." else 0) > SCALED_MAX:
-            return "data-line-too-long"
-    return None
-
-
 HARNESSES = [
     H(long_scaled, shards=[("len(l1) == %d" % n,) for n in range(SCALED_MAX - 1, SCALED_MAX + 3)],
       timeout={"quick": 90, "thorough": 600}),
-    H(long_default, shards=[("lsel == %d" % i,) for i in range(len(_LONG))], timeout={"quick": 90, "thorough": 600}),
+    H(long_default, shards=[("lsel == %d" % i,) for i in range(len(_LONG))], timeout={"quick": 200, "thorough": 600}),
     H(one_line, timeout={"quick": 90, "thorough": 900}),
-    H(two_lines, shards=_shards2, timeout={"quick": 100, "thorough": 900}),
-    H(three_lines, shards=_shards3, timeout={"quick": 100, "thorough": 900}),
+    H(two_lines, shards=_shards2, timeout={"quick": 200, "thorough": 900}),
+    H(three_lines, shards=_shards3, timeout={"quick": 200, "thorough": 900}),
 ]
 
 VECTORS = {
-    "long_scaled": [("abc", 1, 3), ("abcd", 2, 7), (".bc", 1, 0), ("a:c", 2, 9)],
-    "long_default": [("a", 0, 3), (".", 1, 4), (":", 2, 0), ("\xff", 5, 2), ("a", 3, 1), ("a", 4, 2)],
+    "long_scaled": [("abc", 1, 3), ("abcd", 2, 7), (".bc", 1, 0), ("a:c", 2, 9), ("abcde", 1, 9), ("abcde", 2, 3),
+                    ("....", 2, 5), ("abcdef", 1, 8), (".bcd", 2, 12)],
+    "long_default": [("a", 0, 0), (".", 1, 1), (":", 2, 0), ("\xff", 5, 2), ("a", 3, 1), ("a", 4, 2)],
     "one_line": [(".", True, 3, 1), (".a", True, 1, 0), ("a", False, 2, 3), ("", True, 1, 2), (":", True, 2, 4),
                  ("..", True, 1, 5), ("..", False, 2, 6), ("\xff\x00", True, 3, 3)],
     "two_lines": [("a", ".", True, 2, 1), ("a", ".b", True, 2, 5), ("a", ".b", True, 3, 2), (".", ".", True, 1, 4),
